@@ -38,6 +38,7 @@ fn run_case(args: &[u64]) -> Out {
     let mut out = Out::new();
     match args.first() {
         Some(1) => world_engine::run(&args[1..], &mut out),
+        Some(2) => world_engine::run_twin(&args[1..], &mut out),
         Some(19) => bits::run(&args[1..], &mut out),
         Some(6) => sched::run_borrow(&args[1..], &mut out),
         Some(60) => sched::stress_borrow(&args[1..], &mut out),
